@@ -647,13 +647,15 @@ class Poly2d:
 
     def __init__(self, cc: np.ndarray, A: Affine) -> None:
         assert cc.shape in [(3, 3, 2), (2, 2, 2)]
-        tol = 1e-6
         self._cc = cc
         self._A = A
         self._safe_to_grid = False
 
         sx, zx, tx, zy, sy, ty, *_ = A
-        if abs(zx) < tol and abs(zy) < tol:
+        # separable fast path only for an exactly axis-aligned input transform: the
+        # matrix is in normalised units, so even a tiny off-diagonal term gets
+        # multiplied by large pixel coordinates and must not be dropped
+        if zx == 0 and zy == 0:
             self._norm = lambda x, y: (np.polyval([sx, tx], x), np.polyval([sy, ty], y))
             self._safe_to_grid = True
         else:
